@@ -2,6 +2,7 @@
 // Runs the real intra-procedural forward analyzer (+ assertion checker) on every
 // program x run configuration and exports the invariants at the entry/exit of every
 // block and the verdict of every assertion. Serves C01, C02, C05 (termination), C13/C14.
+#include <crab/support/debug.hpp>
 #include "domreg.hpp"
 #include "progbuild.hpp"
 #include <crab/analysis/dataflow/liveness.hpp>
@@ -170,6 +171,7 @@ int main(int argc, char **argv) {
   }
   FILE *out = fopen(argv[2], "w");
   if (!out) return 2;
+  if (getenv("VH_CRAB_LOG")) crab::CrabEnableLog(getenv("VH_CRAB_LOG")); // developer aid: one crab log tag
   long per_run_s = getenv("VH_STEP_TIMEOUT") ? atol(getenv("VH_STEP_TIMEOUT")) : 20;
   // flatten (program, run) pairs
   std::vector<std::pair<size_t, size_t>> jobs;
